@@ -68,6 +68,7 @@ type S struct {
 	// a second Shutdown call made while the first is draining (admin command followed by a signal)
 	sd2Start, sd2Return, sd2Ctx time.Duration
 	sd2Called, sd2Returned      bool
+	idleTO                      time.Duration
 }
 
 func (s *S) Prepare(c *scen.Ctx) { world.PrepareProcess() }
@@ -95,8 +96,13 @@ func (s *S) Run(c *scen.Ctx) {
 	// a handle time-out bounds a handler once it runs, not the time a request waits for a worker
 	handleTO := []time.Duration{0, 0, 300 * time.Millisecond, time.Second}[simrt.Draw(4, "c12.handleto")]
 	c.Describe("handle_timeout", handleTO.String())
+	readTO := []time.Duration{0, 0, 100 * time.Millisecond, time.Second}[simrt.Draw(4, "c12.readto")]
+	idleTO := []time.Duration{600 * time.Second, 600 * time.Second, 400 * time.Millisecond, 2 * time.Second}[simrt.Draw(4, "c12.idleto")]
+	c.Describe("server_read_timeout", readTO.String())
+	c.Describe("server_idle_timeout", idleTO.String())
+	s.idleTO = idleTO
 	conf := &transport.TarsServerConf{Proto: "tcp", Address: addr, MaxInvoke: int32(s.pool), QueueCap: qcap,
-		AcceptTimeout: 500 * time.Millisecond, IdleTimeout: 600 * time.Second, HandleTimeout: handleTO}
+		AcceptTimeout: 500 * time.Millisecond, IdleTimeout: idleTO, ReadTimeout: readTO, HandleTimeout: handleTO}
 	srv, _ := tars.VerifNewServer(&disp{s}, nil, true, conf)
 	if err := srv.Listen(); err != nil {
 		c.Inconclusive("listen: %v", err)
@@ -293,7 +299,27 @@ func (s *S) Check(c *scen.Ctx, res *simrt.Result) {
 					rc.idx, len(frames), missing, pr.Server.ClosedAt, s.pool, s.sdStart)
 			}
 		}
+		// a connection that had been idle for the server's idle time-out when it was closed was
+		// closed for that reason, as it would have been without any shutdown
+		idleClosed := false
 		if serverClosed {
+			last := rc.connAt
+			for _, r := range pr.C2S.Reads {
+				if r.N > 0 && r.Time > last && r.Time <= pr.Server.ClosedAt {
+					last = r.Time
+				}
+			}
+			for _, w := range pr.S2C.Writes {
+				if w.N > 0 && w.Time > last && w.Time <= pr.Server.ClosedAt {
+					last = w.Time
+				}
+			}
+			idleClosed = pr.Server.ClosedAt-last >= s.idleTO
+			if idleClosed {
+				c.Count("probe.connection_closed_by_server_idle_timeout", 1)
+			}
+		}
+		if serverClosed && !idleClosed {
 			if rc.connAt+time.Millisecond < s.sdStart && !gotNotice && !rc.abandoned && (pr.Client.ClosedAt < 0 || pr.Client.ClosedAt > s.sdStart) {
 				c.Fail("C12", "no-reconnect-notice", poolKey, "client %d was connected (since %v) when Shutdown was called at %v and its connection was closed by the server at %v without the reconnect notification", rc.idx, rc.connAt, s.sdStart, pr.Server.ClosedAt)
 			}
